@@ -17,6 +17,7 @@ pub fn runs(property: &str, tier: Tier) -> u64 {
         "C37" => (1600, 40000),
         "C26" => (960, 40000),
         "C25" => (2400, 100000),
+        "C24" => (640, 16000),
         _ => (160, 3000),
     };
     match tier { Tier::Quick => quick, Tier::Thorough => thorough }
@@ -229,6 +230,36 @@ pub fn describe(property: &str) -> Option<serde_json::Value> {
             "assumptions": [
                 "a view is self-consistent unless the injected fault says otherwise",
                 "rsync disabled so that 'not updated' means no data is handed out",
+            ],
+        }))
+    }
+    if property == "C24" {
+        return Some(json!({
+            "engine": "B (rrdp) in crash mode: kill points in archive writes, \
+                       truncation and snapshot replacement",
+            "level": "fault_enumeration",
+            "rule": "Each run: a client synced to a server history, then one \
+                     update (delta chain or snapshot, sometimes with a peer \
+                     fault) is executed repeatedly from the same state, once \
+                     per kill point (all in thorough, a seeded sample of 12 \
+                     in quick): at kill point k the cache directory is copied \
+                     aside -- what a process kill leaves behind. From every \
+                     distinct image the client restarts and the history \
+                     continues for 1-3 exchanges against the current view, \
+                     the pre-crash view (mirror lag, 304) or a faulty view. \
+                     Oracle: Engine B's (an update reported successful \
+                     leaves the copy equal to the server snapshot at the \
+                     recorded version). Non-trivial: >=1 image checked; \
+                     distinct = (kill sites hit, fault kinds, outcome probes). \
+                     Complete over the kill points of the interrupted update \
+                     in thorough mode; histories are sampled.",
+            "assumptions": [
+                "crash = process kill: page cache survives, so a directory \
+                 copy at the kill point is the crash image (no power loss, \
+                 no reordering of writes)",
+                "kill points sit before each archive write/truncate and \
+                 around remove/rename; tearing inside one write call is not \
+                 modelled",
             ],
         }))
     }
